@@ -1,4 +1,5 @@
 import AvroModel.SchemaParse
+import AvroModel.SchemaSer
 /-
 Model of what `#[derive(AvroSchema)]` means (`avro_derive/src/{structs,fields,enums/*,case,utils}.rs`
 plus the `AvroSchemaComponent` impls for std types in `avro/src/serde/derive.rs`) on a small
@@ -136,7 +137,8 @@ def variantName (v : VariantDef) (renameAll : RenameRule) : Bytes :=
   | some r => r
   | none => renameAll.variant v.ident
 
-def natBytes (n : Nat) : Bytes := (toString n).toUTF8.toList
+/-- `format!("{n}")` (decimal digits, most significant first; `fuel` > `n` is always enough) -/
+def natBytes (n : Nat) : Bytes := natDigits (n+1) n
 
 /-- the result of a schema expression: the schema and the names defined so far -/
 abbrev DOut := Option (PSchema × List PName)
